@@ -54,6 +54,7 @@ ANCHORS = [
     ("src/easynetwork/lowlevel/api_async/servers/datagram.py", "_ClientState"),
     ("src/easynetwork/lowlevel/api_async/backend/_asyncio/datagram/listener.py", "_DatagramListenerServeContext.handle"),
     ("src/easynetwork/lowlevel/api_async/backend/_asyncio/datagram/listener.py", "DatagramListenerProtocol.datagram_received"),
+    ("src/easynetwork/lowlevel/api_async/backend/_asyncio/datagram/listener.py", "DatagramListenerProtocol.__init__"),
     ("src/easynetwork/lowlevel/api_async/backend/_asyncio/datagram/listener.py", "DatagramListenerProtocol.serve"),
     ("src/easynetwork/lowlevel/api_async/backend/_asyncio/datagram/listener.py", "DatagramListenerSocketAdapter.serve"),
     ("src/easynetwork/servers/misc.py", "build_lowlevel_datagram_server_handler"),
@@ -473,7 +474,9 @@ RULE = ("a case is a driver script for the real server (datagram arrivals from 1
         "release 0, idle} x small programs for two addresses; random: 1-3 "
         "addresses, up to 6 datagrams, programs up to 6 choices, with and without a yielding condition variable, over the "
         "in-memory listener or the REAL asyncio DatagramListenerProtocol; real listener with a pre-serve backlog of "
-        "0/1/2/31..34/40/64/65 datagrams followed by every sequence of up to 3 {loop iteration, late arrival} steps. The "
+        "0/1/2/31..34/40/64/65 datagrams followed by every sequence of up to 3 {loop iteration, late arrival} steps, and "
+        "backlogs of 127/128/129/257/1000 (thorough: 3000, 5000) datagrams; handlers yielding float timeouts 0 / 1 tick / "
+        "none with datagrams already queued, every action sequence up to length 3 (4) over {arrive, idle, advance 1 tick}. The "
         "model must also have no scheduler step left enabled when the real server is idle at the end of the script. "
         "Cases whose label sequence was already produced are skipped. Non-trivial = a datagram arrived while its "
         "address had a live generator, a suspended handler or a pending task, or a restart/timeout/discard happened.")
@@ -592,10 +595,40 @@ def _exhaustive2(maxact, mode, seen):
                         yield c
 
 
+def _timeout_cases(seen, thorough):
+    """handlers yielding float timeouts (0.0, one tick, none) while datagrams are already queued or arrive later: the
+    timeout may fire at any suspension point of the take; nothing taken from the queue may be lost"""
+    choices = ([1, 0], [1, 1], [1, -1], [2])
+    progs_all = [list(p) for n in range(1, 4) for p in itertools.product(choices, repeat=n)]
+    for n in range(1, (4 if thorough else 3) + 1):
+        for seq in itertools.product("AQV", repeat=n):
+            if "A" not in seq:
+                continue
+            actions, k = [], 0
+            for x in seq:
+                if x == "A":
+                    actions.append([0, 0, bytes([97 + k])])
+                    k += 1
+                else:
+                    actions.append([3] if x == "Q" else [4, 1])
+            actions.append([4, 3])
+            for prog in progs_all:
+                for mode in ([0, 0], [1, 0]):
+                    c = _case(1, [[list(ch) for ch in prog]], actions, mode, seen, ["timeouts"])
+                    if c:
+                        yield c
+
+
 def _backlog_cases(seen, thorough):
     """real asyncio listener: B datagrams received before serve() is awaited (pre-serve backlog), then every sequence
     of up to 3 {one loop iteration, late arrival} steps right after serve() starts; the model is plain FIFO"""
     sizes = (0, 1, 2, 31, 32, 33, 34, 40, 64, 65) + ((63, 96, 97, 130) if thorough else ())
+    # backlogs well beyond any plausible bound: nothing may be evicted, whatever the number (one script each)
+    for naddr, b in ((1, 127), (1, 128), (1, 129), (2, 257), (1, 1000)) + (((2, 3000), (3, 5000)) if thorough else ()):
+        actions = [[0, k % naddr, b"D%d" % k] for k in range(b)] + [[5], [0, 0, b"late"], [3]]
+        c = _case(naddr, [[] for _ in range(naddr)], actions, [0, 1], seen, ["real-listener", "backlog>=127"])
+        if c:
+            yield c
     for naddr in (1, 2):
         for b in sizes:
             for n in range(0, 4):
@@ -658,6 +691,7 @@ def cases(tier, rng, escalate):
     if thorough:
         yield from _exhaustive2(4, [1], seen)
     yield from _backlog_cases(seen, thorough)
+    yield from _timeout_cases(seen, thorough)
     n = 12000 if thorough else 2500
     for _ in range(n):
         c = _random_case(rng, seen, thorough)
